@@ -334,4 +334,21 @@ def settersBelowStopping (g : G) : Bool :=
      | some (.publish s) => s < stStopping
      | some _ => false))
 
+/-- the other `set_status` callers publish values below `Stopping` (`Starting`, `Running`; this is
+what the code base does — only the actor's own task publishes `Stopping`/`Stopped`) -/
+def settersOk (setters : List (List Nat)) : Bool := setters.all (·.all (· < stStopping))
+
+/-- A state from which the exit has not started: the exiter is about to publish `Stopping`, the
+status is below `Stopping` (`Running`, or `Draining` after a `drain()`), nothing was notified yet,
+every waiter is fresh. The cleanup flags are arbitrary (a kill signal, for instance, terminates the
+children before the exit sequence starts). -/
+structure Initial (g : G) : Prop where
+  exiter : g.exiter.pc = .set1 (.publish stStopping)
+  status : g.sh.status < stStopping
+  gen : g.sh.gen = 0
+  permit : g.sh.permit = false
+  runs : g.sh.cleanupRuns = 0 ∧ g.sh.notifyRuns = 0
+  waiters : ∀ w ∈ g.waiters, w = {}
+  setters : settersBelowStopping g = true
+
 end ExitRace
